@@ -126,7 +126,16 @@ class ClassInfo:
             if name in c.methods:
                 return c, c.methods[name]
             if name in c.attrs:
-                return c, c.attrs[name]
+                v = c.attrs[name]
+                # `name = staticmethod(f)` / `name = f` in the class body with f a module-level function: the method is that function
+                inner = v.args[0] if isinstance(v, ast.Call) and isinstance(v.func, ast.Name) and v.func.id in ("staticmethod", "classmethod") and len(v.args) == 1 and not v.keywords else v
+                if isinstance(inner, ast.Name) and getattr(c, "module", None) is not None:
+                    sym = c.module.symbols.get(inner.id)
+                    if sym is not None and sym[0] == "func" and isinstance(sym[1], FuncInfo) and sym[1].cls is None:
+                        if isinstance(v, ast.Call):
+                            sym[1].alias_kind = v.func.id
+                        return c, sym[1]
+                return c, v
         return None
 
     def is_subclass_of(self, other) -> bool:
@@ -252,6 +261,45 @@ class Program:
                     if isinstance(owner, ClassInfo):
                         val = self.resolve_expr_static(m, st.value)
                         owner.injected[tgt.attr] = val if val is not None else st.value
+                elif isinstance(st, ast.Expr) and isinstance(st.value, ast.Call) and not st.value.keywords:
+                    # `install(Cls, Hooks(f, g, h))` at module level where install() only does `param.attr = <param or field of a record parameter>`:
+                    # the injections the call performs
+                    self._injections_of_call(m, st.value)
+
+    def _injections_of_call(self, m, call: ast.Call):
+        fn = self.resolve_expr_static(m, call.func)
+        if not isinstance(fn, FuncInfo) or not isinstance(fn.node, ast.FunctionDef) or fn.cls is not None:
+            return
+        body = [s_ for s_ in fn.node.body if not (isinstance(s_, ast.Expr) and isinstance(s_.value, ast.Constant))]
+        params = fn.params
+        if len(params) != len(call.args) or not body:
+            return
+        if not all(isinstance(s_, ast.Assign) and len(s_.targets) == 1 and isinstance(s_.targets[0], ast.Attribute) and isinstance(s_.targets[0].value, ast.Name) and s_.targets[0].value.id in params for s_ in body):
+            return
+        actual = dict(zip(params, call.args))
+        for s_ in body:
+            owner = self.resolve_expr_static(m, actual[s_.targets[0].value.id])
+            if not isinstance(owner, ClassInfo):
+                return
+            v = s_.value
+            val = None
+            if isinstance(v, ast.Name) and v.id in actual:
+                val = self.resolve_expr_static(m, actual[v.id])
+            elif isinstance(v, ast.Attribute) and isinstance(v.value, ast.Name) and v.value.id in actual:
+                rec = actual[v.value.id]
+                # a record built in place: Hooks(a, b, c) / Hooks(x=a, ...) of a named-tuple class of the repository
+                if isinstance(rec, ast.Call):
+                    rc = self.resolve_expr_static(m, rec.func)
+                    fields = self.namedtuple_fields_of(rc) if isinstance(rc, ClassInfo) else None
+                    if fields and v.attr in fields:
+                        i = fields.index(v.attr)
+                        kw = {k.arg: k.value for k in rec.keywords if k.arg}
+                        e = rec.args[i] if i < len(rec.args) else kw.get(v.attr)
+                        if e is not None:
+                            val = self.resolve_expr_static(m, e)
+            if val is None:
+                return
+            owner.injected[s_.targets[0].attr] = val
 
     def resolve_relative(self, m: ModuleInfo, level: int, modname: Optional[str]) -> str:
         if level == 0:
@@ -468,6 +516,12 @@ class Program:
 
     def func(self, qualname: str) -> FuncInfo:
         if qualname not in self.funcs:
+            # a method that is inherited (from a mixin the class was split into) or bound in the class body to a module-level function
+            cq, _, nm = qualname.rpartition(".")
+            c = self.classes.get(cq)
+            r = c.lookup(nm) if c is not None else None
+            if r is not None and isinstance(r[1], FuncInfo):
+                return r[1]
             raise AnalysisError("anchor function not found: %s" % qualname)
         return self.funcs[qualname]
 
